@@ -6,6 +6,28 @@ The abstract view of the registry's table, its representation invariant, and the
 namespace Rpyc.Registry
 open Rpyc
 
+/-! ### facts about the interpreter the check runs under (generated; each is a named obligation) -/
+
+/-- every brine value can be a dict key (Python >= 3.12: `slice` is hashable) -/
+theorem brine_values_hashable : Gen.allBrineValuesHashable = true := by decide
+
+/-- the real `logging.Logger` survives the two `warn` calls that sit outside every `try` in `_work` -/
+theorem real_logger_survives_warn : Gen.realLoggerSurvivesWarn = true := by decide
+
+mutual
+theorem hashable_true : ∀ v, hashable v = true
+  | .none | .notImpl | .ellipsis | .bool _ | .int _ | .float _ | .complex _ _ | .bytes _ | .str _ | .fset _ | .other _ => by
+    first | rfl | (simp only [hashable]; decide)
+  | .tuple xs => by simp only [hashable, hashableL_true xs, Bool.and_true]; decide
+  | .slice a b c => by simp only [hashable, hashable_true a, hashable_true b, hashable_true c, Bool.and_true]; decide
+theorem hashableL_true : ∀ xs, hashableL xs = true
+  | [] => rfl
+  | x :: xs => by simp only [hashableL, hashable_true x, hashableL_true xs, Bool.and_true]
+end
+
+theorem warnStep_eq_idle (sv : Services) : warnStep sv = idle sv := by
+  simp [warnStep, idle, real_logger_survives_warn]
+
 /-- the abstract registry: (name code, address code) ↦ time of the last refresh -/
 abbrev AbsMap := List Nat → List Nat → Option Int
 
